@@ -243,7 +243,7 @@ class SweepGen(object):
         grid = [on] * c.n
         if layout == 'c-mixed':
             for i in range(1, c.n):
-                col[i] = value_for(Fraction(rng.choice([0, max(top - 1, 0), rng.randint(0, max(top - 1, 0))])), s, r)
+                col[i] = value_for(Fraction(rng.choice([0, max(top - 1, 0), rng.randint(0, max(top - 1, 0)), rng.randint(0, max(top - 1, 0)), top])), s, r)
                 grid[i] = True
             if rng.random() < 0.5:
                 col.reverse()
